@@ -2,6 +2,7 @@ import FpgoVerif.Proofs.C02Int
 import FpgoVerif.Model.C02
 import FpgoVerif.Proofs.C02Float
 import FpgoVerif.Proofs.C02Misc
+import FpgoVerif.Proofs.C02ToFloat
 /-! Property theorems for C02 — "Maybe numeric conversions are value-preserving or fail; never silently wrap".
 
     All theorems are about `convGo` = the evaluator `conv` applied to `Gen.convTable`, the table the
@@ -82,6 +83,35 @@ theorem C02_float32_bits_to_int (tgt : Ty) (ht : tgt ∈ fltDirectTgts) (bits : 
 example : convGo .int64 (.ty .float64) (.f64 (.fin false 9223372036854775808 0)) = ⟨.i 0, .overflow⟩ := by decide +kernel
 example : convGo .int32 (.ty .float64) (.f64 (.fin false 5 1)) = ⟨.i 3, .ok⟩ := by decide +kernel
 example : (FVal.fin false 5 1).wf 53 := by simp [FVal.wf]
+
+/-! ### integer → float -/
+
+/-- Closing theorem: every (float target, integer source) clause is `val, err := To<S>(); return T(val), err`. -/
+theorem C02_table_int_to_float :
+    [Ty.float32, .float64].all (fun tgt => intTys.all (fun src =>
+      toFloatBodyOK Gen.convTable tgt src (lookup Gen.convTable tgt (.ty src)))) = true := by decide +kernel
+
+/-- Every integer of every integer type converts to float32 / float64 successfully, to the nearest representable
+    value (`ofInt f z`: round to nearest, ties to even), which is always finite. -/
+theorem C02_int_to_float (tgt : Ty) (f : Fmt) (hf : (tgt = .float32 ∧ f = f32) ∨ (tgt = .float64 ∧ f = f64))
+    (src : Ty) (hs : src ∈ intTys) (lo hi z : Int) (hr : src.range = some (lo, hi)) (h1 : lo ≤ z) (h2 : z ≤ hi) :
+    convGo tgt (.ty src) (.i z) = ⟨castTo tgt (.i z), .ok⟩ ∧
+    specOK tgt (.ty src) (.i z) (convGo tgt (.ty src) (.i z)) = true := by
+  have hall := C02_table_int_to_float
+  rw [List.all_eq_true] at hall
+  have h' := hall tgt (by rcases hf with ⟨rfl, _⟩ | ⟨rfl, _⟩ <;> simp)
+  rw [List.all_eq_true] at h'
+  have hc := h' src hs
+  obtain ⟨e, sp⟩ := toFloatBodyOK_sound goStrconv Gen.convTable 4 tgt src f hf lo hi z hr h1 h2 hc
+  have e' : convGo tgt (.ty src) (.i z) = ⟨castTo tgt (.i z), .ok⟩ := e
+  refine ⟨e', ?_⟩
+  rw [e']
+  cases src <;> simpa [specOK] using sp
+
+-- 2^24 + 1 is a tie between two float32 values and goes to the even one; 2^63 - 1 becomes 2^63
+example : convGo .float32 (.ty .int32) (.i 16777217) = ⟨.f32 (.fin false 16777216 0), .ok⟩ := by decide +kernel
+example : convGo .float64 (.ty .int64) (.i 9223372036854775807) = ⟨.f64 (.fin false 9223372036854775808 0), .ok⟩ := by
+  decide +kernel
 
 /-! ### absent values, unsupported kinds, bool sources, ToBool -/
 
